@@ -13,6 +13,15 @@ every object of a tree returned by clone / export_leaf is registered in the orde
 (recursively), properties; new_obj / get_values / new_list register their result.
 Answer: {"steps":[{"out":…,"snap":…}…]} with a snapshot of every parentless registered object (tree,
 values resolved through the cells, table index of every node) and of every list after each op.
+
+The record of a merge (`_merged_attrs`, address space `dcell`): with `"rec":true` in the request every
+Section node of every snapshot also carries "ma" = the items of its record ([[position, text]…], sorted;
+1 = definition, 2 = reference) and "mc" = the address of the dict (objects with the same "mc" SHARE the
+dict; to be numbered by first occurrence before comparing). An init object may carry "ma" (the items of
+its record) and "mc" (a class number: objects with the same number share one dict); a Section without
+"ma" gets a new empty dict (`__init__`). Ops {"o":"merge_attrs","x","s","record"} = `x._merge(s, False,
+record)` for an `s` without children, {"o":"unmerge_attrs","x"} = the attribute part of `x.unmerge(…)`.
+Without "rec" the snapshots are exactly what they were.
 Trusted glue, outside the proofs.
 -/
 namespace DrvC11
@@ -22,6 +31,7 @@ structure St where
   h : H
   objs : Array Nat
   lists : Array Nat
+  withRec : Bool := false
 
 def decLit (j : Json) : Except String Lit :=
   match j.getObjValAs? String "a" with
@@ -68,10 +78,16 @@ def encItems (h : H) (items : List Item) : Json :=
 
 partial def encTree (st : St) (x : Nat) : Json :=
   let n := st.h.node x
-  jobj [("h", idxOf st.objs x), ("k", jstr (kindStr n.kind)), ("n", jstr n.name), ("id", jnat n.id),
+  jobj ([("h", idxOf st.objs x), ("k", jstr (kindStr n.kind)), ("n", jstr n.name), ("id", jnat n.id),
         ("a", jarr (n.attrs.map jstr)),
         ("v", match n.vals with | some c => encItems st.h (st.h.vcell c) | none => Json.null),
-        ("m", match n.merged with | some m => idxOf st.objs m | none => Json.null),
+        ("m", match n.merged with | some m => idxOf st.objs m | none => Json.null)] ++
+       (if st.withRec && n.kind == .sec then
+          [("ma", jarr (((recOf st.h x).toArray.qsort (fun a b => a.1 < b.1)).toList.map
+                    (fun kv => jarr [jnat kv.1, jstr kv.2]))),
+           ("mc", jnat n.mattrs)]
+        else []) ++
+       [
         -- what the object answers for its repository (`get_repository()`): its own or the one of the
         -- nearest object above it that has one
         ("r", match n.kind with
@@ -79,7 +95,7 @@ partial def encTree (st : St) (x : Nat) : Json :=
               | _ => match inherited st.h (st.h.nN + 1) x repoAttr with
                      | some v => jstr v
                      | none => Json.null),
-        ("s", jarr (n.secs.map (encTree st))), ("p", jarr (n.props.map (encTree st)))]
+        ("s", jarr (n.secs.map (encTree st))), ("p", jarr (n.props.map (encTree st)))])
 
 def snap (st : St) : Json :=
   let roots := (List.range st.objs.size).filterMap fun i =>
@@ -94,10 +110,21 @@ partial def register (h : H) (objs : Array Nat) (x : Nat) : Array Nat :=
   let objs := (h.node x).secs.foldl (fun o s => register h o s) objs
   (h.node x).props.foldl (fun o p => o.push p) objs
 
-def build (init : Array Json) : Except String St := do
+def decRec (o : Json) : Except String (Option (List (Nat × String))) :=
+  match o.getObjVal? "ma" with
+  | .ok (.arr xs) => do
+    let items ← xs.toList.mapM (fun kv => do
+      match kv with
+      | .arr #[k, v] => pure ((← k.getNat?), (← v.getStr?))
+      | _ => throw "bad ma item")
+    pure (some items)
+  | _ => pure none
+
+def build (init : Array Json) (withRec : Bool := false) : Except String St := do
   let mut h : H := Clone.empty
   let mut objs : Array Nat := #[]
   let mut maxId := 0
+  let mut classes : List (Nat × Nat) := []      -- sharing class of the request ↦ dict address
   for o in init do
     let k ← decKind (← getStr o "kind")
     let id ← getNat o "id"
@@ -108,6 +135,20 @@ def build (init : Array Json) : Except String St := do
     h := h1
     if k == .prop then
       h := setValuesLits h x (← decLits o "vals")
+    if k == .sec then
+      -- `_merged_attrs`: a dict of its own (`__init__`), or the one an earlier object of the class holds
+      let items := (← decRec o).getD []
+      match optNat o "mc" with
+      | some cl =>
+        match classes.lookup cl with
+        | some d => h := updN h x (fun n => { n with mattrs := d })
+        | none =>
+          let (h2, d) := allocD h items
+          h := updN h2 x (fun n => { n with mattrs := d })
+          classes := (cl, d) :: classes
+      | none =>
+        let (h2, d) := allocD h items
+        h := updN h2 x (fun n => { n with mattrs := d })
     match optNat o "parent" with
     | some pi =>
       let p := objs[pi]!
@@ -126,7 +167,7 @@ def build (init : Array Json) : Except String St := do
     | none => pure ()
     i := i + 1
   h := { h with nextId := maxId }
-  pure { h := h, objs := objs, lists := #[] }
+  pure { h := h, objs := objs, lists := #[], withRec := withRec }
 
 def obj (st : St) (j : Json) (k : String) : Except String Nat := do
   let i ← getNat j k
@@ -165,6 +206,8 @@ def decOp (st : St) (j : Json) : Except String Op := do
   | "rename" => pure (.rename (← obj st j "x") (← getStr j "new"))
   | "set_attr" => pure (.setAttr (← obj st j "x") (← getNat j "i") (← getStr j "v"))
   | "new_id" => pure (.newId (← obj st j "x"))
+  | "merge_attrs" => pure (.mergeAttrs (← obj st j "x") (← obj st j "s") (← getBool j "record"))
+  | "unmerge_attrs" => pure (.unmergeAttrs (← obj st j "x"))
   | _ => throw s!"unknown op {o}"
 
 def errStr : Err → String
@@ -193,7 +236,8 @@ def exec (st : St) (op : Op) : St × Json :=
 def handle (j : Json) : Except String Json := do
   let init ← getArr j "init"
   let ops ← getArr j "ops"
-  let mut st ← build init
+  let withRec := match j.getObjValAs? Bool "rec" with | .ok b => b | .error _ => false
+  let mut st ← build init withRec
   let mut steps : Array Json := #[jobj [("out", Json.null), ("snap", snap st)]]
   for oj in ops do
     let op ← decOp st oj
